@@ -108,6 +108,8 @@ def check(case, rec):
     rec.label(*classes)
     if truncated:
         rec.label('truncated_data_file')
+    if case.get('pathlib'):
+        rec.label('pathlib.Path')
     rec.nontrivial(len(phys['segments']) >= 2 or 'padding' in classes or 'no_metadata_segment' in classes or truncated)
     with scratch_dir() as d:
         path = os.path.join(d, 'x.tdms')
@@ -122,7 +124,11 @@ def check(case, rec):
             tag = 'with_index' if have_index else 'no_index'
             for api in ('read', 'open', 'read_metadata'):
                 fn = getattr(TdmsFile, api)
-                ok, tf = rec.guard('%s:%s' % (tag, api), lambda: fn(path, raw_timestamps=True))
+                src_path = path
+                if case.get('pathlib'):
+                    import pathlib
+                    src_path = pathlib.Path(path)           # documented alternative to a path string
+                ok, tf = rec.guard('%s:%s' % (tag, api), lambda: fn(src_path, raw_timestamps=True))
                 if not ok:
                     continue
                 try:
@@ -189,7 +195,8 @@ def cases_c01(draw, **kw):
     return {'fs': fs, 'picks': None, 'cut': draw(st.one_of(st.none(), st.none(), st.integers(0, 10 ** 6))),
             'torn': draw(st.one_of(st.none(), st.none(), st.none(), st.integers(0, 10 ** 6))),
             'short_mid': draw(st.one_of(st.none(), st.none(), st.none(),
-                                        st.tuples(st.integers(0, 100), st.integers(0, 10 ** 6)).map(list)))}
+                                        st.tuples(st.integers(0, 100), st.integers(0, 10 ** 6)).map(list))),
+            'pathlib': draw(st.integers(0, 3)) == 0}
 
 
 @st.composite
